@@ -18,6 +18,8 @@ def suggestion_list(input_: str, options: Collection[str]) -> list[str]:
     Given an invalid input string and list of valid options, returns a filtered list
     of valid options sorted based on their similarity with the input.
     """
+    if not isinstance(input_, str):  # e.g. a non-string key of an input object
+        input_ = str(input_)
     options_by_distance = {}
     lexical_distance = LexicalDistance(input_)
 
